@@ -309,7 +309,7 @@ THEOREMS = ["C38_gcounter_join", "C38_gcounter_inflation", "C38_pncounter_join",
             "C38_lww_join_partial", "C38_lww_refuted", "C38_orset_join", "C38_orset_inflation"]
 
 META = {
-    "ready": False,
+    "ready": True,
     "category": "proof",
     "technique": "Rocq proof over an executable std++ model of the crdt package + differential slot-machine tie + join-law oracle",
     "text": "Join laws (commutative, associative, idempotent, absorbing/inflationary) proved for all states (GCounter, PNCounter, Flag), all reachable states (ORSet, MVRegister) and all coherent states (LWWRegister); ORMap and LWW carry refutation witnesses replayed on the real code and guarded partial theorems.",
